@@ -263,6 +263,24 @@ def op_total_lt_content(cfg, path, rnd):
     p['content-size-field-type'] = {'class': 'uint', 'size': 32}
 
 
+def op_total_lt_default_content(cfg, path, rnd):
+    """the content size feature left to its default (a 64-bit unsigned integer), the total size narrower"""
+    d = get(cfg, path)
+    f_ = d.get('$features')
+    if not isinstance(f_, dict):
+        f_ = {}
+        d['$features'] = f_
+    p = f_.get('packet')
+    if not isinstance(p, dict):
+        p = {}
+        f_['packet'] = p
+    p['total-size-field-type'] = {'class': 'uint', 'size': rnd.choice([16, 32, 48, 63])}
+    if rnd.random() < 0.5:
+        p.pop('content-size-field-type', None)
+    else:
+        p['content-size-field-type'] = True
+
+
 def op_two_defaults(cfg, path, rnd):
     for d in get(cfg, path)['data-stream-types'].values():
         d['$is-default'] = True
@@ -346,6 +364,7 @@ OPS = [
     ('ert-id-disabled', ['dst'], count_ge('event-record-types', 2), op_ert_id(False)),
     ('ert-id-too-small', ['dst'], None, op_three_erts_small_id),
     ('total-size-narrower-than-content-size', ['dst'], None, op_total_lt_content),
+    ('total-size-narrower-than-default-content-size', ['dst'], None, op_total_lt_default_content),
     ('two-default-stream-types', ['tt'], count_ge('data-stream-types', 2), lambda c, p, r: op_two_defaults(c, p, r)),
     ('byte-order-missing', ['tt'], None, lambda c, p, r: [get(c, p).pop(k, None) for k in ('native-byte-order', 'trace-byte-order')] and None),
     ('byte-order-bogus', ['tt'], None, lambda c, p, r: get(c, p).__setitem__(
